@@ -6,8 +6,10 @@ package main
 
 import (
 	"bytes"
+	"encoding/json"
 	"fmt"
 	"math/rand"
+	"strings"
 
 	"github.com/TarsCloud/TarsGo/tars/protocol"
 	"github.com/TarsCloud/TarsGo/tars/protocol/codec"
@@ -156,6 +158,9 @@ func c05Gen(tier string, rng *rand.Rand) []mCase {
 				cs = append(cs, c)
 			}
 		}
+		for _, bm := range skipBombs() {
+			cs = append(cs, mkS(b, "skip-bomb", bm.note, bm.bs))
+		}
 		for i := 0; i < nrand; i++ {
 			bs := make([]byte, rng.Intn(40))
 			rng.Read(bs)
@@ -209,6 +214,15 @@ func c05Entries(tier string, rng *rand.Rand, res *Result) {
 	}
 	add("tup", "map head + count 2^31-1, nothing else", []byte{0x08, 0x02, 0x7f, 0xff, 0xff, 0xff})
 	add("tup", "map head + count 2^27", []byte{0x08, 0x02, 0x08, 0x00, 0x00, 0x00})
+	for _, bm := range skipBombs() {
+		add("tup", "skip bomb: "+bm.note, bm.bs)
+		add("response-unpack", "skip bomb: "+bm.note, c05Frame(bm.bs))
+	}
+	for l := 0; l <= 5; l++ { // framing boundary: a length prefix below the header size must never reach the unpacker
+		pk := make([]byte, 4+l)
+		pk[3] = byte(l)
+		add("response-unpack", fmt.Sprintf("length prefix %d", l), pk)
+	}
 	// response packets as the client receive path sees them: 4-byte length + body
 	initRegistry()
 	for sid, e := range registry {
@@ -240,8 +254,8 @@ func c05Entries(tier string, rng *rand.Rand, res *Result) {
 			sig = "decode/panic/" + reqs[i].Entry + "/" + classifyPanic(r.Err)
 		case r.Alloc > 256*uint64(len(reqs[i].Bytes))+(1<<20):
 			sig = "decode/over-allocation/" + reqs[i].Entry
-		case r.Us > 5_000_000:
-			sig = "decode/hang/" + reqs[i].Entry
+		case r.Us > slowLimitUs(len(reqs[i].Bytes)) && stillSlow(reqs[i]):
+			sig = "decode/slow/" + reqs[i].Entry
 		}
 		cnt[reqs[i].Entry+"/"+map[bool]string{true: "ok", false: "notok"}[r.Obs != "OErr" && r.Died == "" && r.Obs != "OPanic"]]++
 		if sig != "" {
@@ -276,18 +290,47 @@ func init() {
 						ms[i] = mCase{g: cs[i], expect: "safe"}
 					}
 				}
-				gs, fails, st := runM("C05", ms, 30000)
+				gs, fails, st := runM("C05", ms, 15000)
 				copy(cs, gs)
 				stats = st
 				return fails
 			},
 			Coq:   gCoq,
 			Class: func(c *gCase) string { return c.Class },
+			ReplayExtra: func(raw json.RawMessage, res *Result) bool {
+				var rq decReq
+				if json.Unmarshal(raw, &rq) != nil || rq.Entry == "" {
+					return false
+				}
+				r := decodeMany([]decReq{rq}, 1, 30000)[0]
+				sig := ""
+				net := strings.HasPrefix(rq.Entry, "net-")
+				switch {
+				case r.Died != "" && net:
+					sig = "network/process-death/" + rq.Entry
+				case r.Obs == "OPanic" && net:
+					sig = "network/panic-or-dead-server/" + rq.Entry
+				case r.Died != "":
+					sig = "decode/process-death/" + rq.Entry
+				case r.Obs == "OPanic":
+					sig = "decode/panic/" + rq.Entry + "/" + classifyPanic(r.Err)
+				case !net && r.Alloc > 256*uint64(len(rq.Bytes))+(1<<20):
+					sig = "decode/over-allocation/" + rq.Entry
+				case !net && r.Us > slowLimitUs(len(rq.Bytes)):
+					sig = "decode/slow/" + rq.Entry
+				}
+				res.Evaluations++
+				if sig != "" {
+					res.Failures = append(res.Failures, Failure{Sig: sig, Desc: fmt.Sprintf("replay %s: obs=%s err=%s died=%s alloc=%d us=%d", rq.Entry, r.Obs, r.Err, r.Died, r.Alloc, r.Us), Replay: rq})
+				}
+				return true
+			},
 			Extra: func(tier string, rng *rand.Rand, res *Result) {
 				for k, v := range stats {
 					res.Stats[k] = v
 				}
 				c05Entries(tier, rng, res)
+				c05Net(tier, rng, res)
 			},
 		}
 		runProp(p, a)
